@@ -546,7 +546,9 @@ def Mon.step (m : Mon) (w : World) (l : Label) (w' : World) : Mon × List Vio :=
   -- observed complete: status completed with the completion signalled, or an await on it has just returned on the signal
   let awaited : Option EId := match l with
     -- (the second disjunct cannot occur on a conforming history: an await that gives up has used up its polling passes)
-    | .awaitEnd i c => if (w.ev c).signal || (w.inst i).iters < w.cfg.maxPoll then some c else none
+    -- (... and an await that returns although its event is still sitting in a queue has not used them up on that event either)
+    | .awaitEnd i c => if (w.ev c).signal || (w.inst i).iters < w.cfg.maxPoll ||
+                          (buses w).any (fun b => (w.bus b).queue.contains c) then some c else none
     | .xAwaitEnd e => some e
     | _ => none
   let fresh := (events w').filterMap fun e =>
@@ -606,7 +608,32 @@ def Mon.step (m : Mon) (w : World) (l : Label) (w' : World) : Mon × List Vio :=
            detail := s!"instance {i} still acts after its timeout / cancellation was recorded as its result" }]
       else []
     | none => []
-  ({ m with snaps := snaps ++ fresh, scanning := scanning }, vs ++ changed ++ scanV ++ yieldV ++ zombieV)
+  -- ... and neither does a handler it was running inline while it awaited a child event (on a serial bus the child's handlers
+  -- run inside the awaiting handler's task: its cancellation reaches them before its own timeout is recorded)
+  let timedOut (i : IId) : Bool :=
+    (w.inst i).st == .finished &&
+    (match (w.ev (w.inst i).ev).getRes? (w.inst i).bus (w.inst i).hid with
+     | some r => r.err == .timeout || r.err == .cancelled | none => false)
+  let rec timedOutAbove (fuel : Nat) (j : IId) : Option IId := match fuel with
+    | 0 => none
+    | fuel + 1 => match (w.inst j).exec with
+      | .inst i => if (w.bus (w.inst j).bus).parallel then none else if timedOut i then some i else timedOutAbove fuel i
+      | _ => none
+  let runner : Option IId := match l with
+    | .hStart j => some j
+    | .hEnd j out => if out == .cancelled then none else some j
+    | .awaitBegin j _ => some j
+    | .dispatch (.inst j) _ _ _ => some j
+    | _ => none
+  let orphanV : List Vio := match runner with
+    | some j =>
+      (match timedOutAbove 8 j with
+       | some i =>
+         [{ prop := "C10", clause := "awaitedChildRanOn", sigs := [],
+            detail := s!"instance {j}, run inside the await of instance {i}, still acts after the timeout / cancellation of instance {i} was recorded" }]
+       | none => [])
+    | none => []
+  ({ m with snaps := snaps ++ fresh, scanning := scanning }, vs ++ changed ++ scanV ++ yieldV ++ zombieV ++ orphanV)
 
 /-- is the model quiescent: nothing queued on a live bus, nothing in hand, no open activation, no live instance -/
 def isRest (w : World) : Bool :=
